@@ -215,7 +215,49 @@ func (x *scheduler) ScheduleOnce(message any, to *PID, delay time.Duration, opts
 	x.recordSchedule(reference, &scheduleMeta{path: to.Path()})
 
 	detail := quartz.NewJobDetail(job.NewFunctionJob(jobFn), jobKey)
-	return x.quartzScheduler.ScheduleJob(detail, quartz.NewRunOnceTrigger(delay))
+	return x.quartzScheduler.ScheduleJob(detail, newOnceTrigger(delay))
+}
+
+// onceTrigger fires a single time, delay after it was scheduled. quartz.RunOnceTrigger marks
+// itself expired the first time NextFireTime is called (at scheduling), so quartz's ResumeJob,
+// which removes the paused job and asks the trigger for its next fire time before putting the
+// job back, got ErrTriggerExpired and dropped a paused one-shot schedule for good. onceTrigger
+// only expires once its fire instant has been consumed.
+type onceTrigger struct {
+	delay time.Duration
+	// at is the fire instant (UnixNano); zero until the schedule is registered.
+	at int64
+}
+
+var _ quartz.Trigger = (*onceTrigger)(nil)
+
+func newOnceTrigger(delay time.Duration) *onceTrigger {
+	return &onceTrigger{delay: delay}
+}
+
+// NextFireTime implements quartz.Trigger.
+func (t *onceTrigger) NextFireTime(prev int64) (int64, error) {
+	switch {
+	case t.at == 0:
+		// registration: fire delay after now, like quartz.RunOnceTrigger
+		t.at = prev + t.delay.Nanoseconds()
+		return t.at, nil
+	case prev == t.at:
+		// quartz reschedules a fired job from its last run time: the single fire is spent
+		return 0, quartz.ErrTriggerExpired
+	case prev < t.at:
+		// resumed before the fire instant: keep it
+		return t.at, nil
+	default:
+		// resumed after the fire instant passed while paused: fire now
+		t.at = prev
+		return t.at, nil
+	}
+}
+
+// Description implements quartz.Trigger.
+func (t *onceTrigger) Description() string {
+	return fmt.Sprintf("onceTrigger%s%s", quartz.Sep, t.delay)
 }
 
 // Schedule schedules a recurring message to be delivered to the specified actor (PID) at a fixed interval.
